@@ -10,6 +10,8 @@
      - [search]           sort.Search (Go standard library), literally;
      - [chunk_for_offset] estargz/estargz.go  Reader.ChunkEntryForOffset (memory metadata store:
                           metadata/memory/reader.go file.ChunkEntryForOffset returns its ChunkOffset/ChunkSize);
+     - [db_chunks], [chunk_for_offset_db]  cmd/containerd-stargz-grpc/db: initNodes chunk recording, readChunks
+                          (sizes recomputed from offsets), file.ChunkEntryForOffset;
      - [read_loop]        fs/reader/reader.go  file.ReadAt (working tree: with the "chunk must contain the offset"
                           guard): per-chunk assembly of a read, with the cache, the underlying (decompressing)
                           reader and the interference of the rest of the system as parameters.
@@ -77,16 +79,44 @@ Fixpoint search_loop (fuel : nat) (i j : nat) (f : nat -> bool) : nat :=
   end.
 Definition search (n : nat) (f : nat -> bool) : nat := search_loop n 0 n f.
 
-(* Reader.ChunkEntryForOffset (the name lookup has already succeeded and gave a data entry) *)
+(* the sort.Search part shared by both stores: the first entry that starts at or after the offset or contains it *)
+Definition search_lookup (ents : list chunk) (offset : Z) : option chunk :=
+  let i := search (length ents) (fun i =>
+             let e := nth i ents (mkChunk 0 0) in
+             (c_off e >=? offset) || ((offset >? c_off e) && (offset <? c_off e + c_size e))) in
+  if Nat.eqb i (length ents) then None else Some (nth i ents (mkChunk 0 0)).
+
+(* Reader.ChunkEntryForOffset of the memory store (the name lookup has already succeeded and gave a data entry) *)
 Definition chunk_for_offset (t : table) (offset : Z) : option chunk :=
   let ents := t_chunks t in
   if Nat.ltb (length ents) 2 then
     if offset >=? c_size (t_ent t) then None else Some (t_ent t)
-  else
-    let i := search (length ents) (fun i =>
-               let e := nth i ents (mkChunk 0 0) in
-               (c_off e >=? offset) || ((offset >? c_off e) && (offset <? c_off e + c_size e))) in
-    if Nat.eqb i (length ents) then None else Some (nth i ents (mkChunk 0 0)).
+  else search_lookup ents offset.
+
+(* ---------- the db (bbolt) metadata store: cmd/containerd-stargz-grpc/db ---------- *)
+(* readChunks: the chunk sizes are recomputed from the offsets: size_i = offset_(i+1) - offset_i, the last one ends
+   at the file size (the sort by chunkOffset is the identity on the writer's ascending entries and is not modelled) *)
+Fixpoint resize (l : list chunk) (n : Z) : list chunk :=
+  match l with
+  | [] => []
+  | c :: t => mkChunk (c_off c) ((match t with [] => n | c2 :: _ => c_off c2 end) - c_off c) :: resize t n
+  end.
+
+(* initNodes: ChunkSize fix-ups as in the memory store; a "reg" entry is recorded as a chunk iff Size > 0, a "chunk"
+   entry iff its (fixed-up) ChunkSize > 0; then readChunks *)
+Definition db_chunks (n : Z) (raw : list (Z * Z)) : list chunk :=
+  match raw with
+  | [] => []
+  | (o, s) :: rest =>
+      let s' := if (s =? 0) && negb (n =? 0) then n else s in
+      let fixc := fun '(co, csz) => mkChunk co (if csz =? 0 then n - co else csz) in
+      resize ((if 0 <? n then [mkChunk o s'] else []) ++ filter (fun c => 0 <? c_size c) (map fixc rest)) n
+  end.
+
+Definition mk_table_db (n cs : Z) : table := mkTable (mkChunk 0 0) (db_chunks n (emit_chunks n cs)).
+
+(* db file.ChunkEntryForOffset: always the search, also for zero or one entry *)
+Definition chunk_for_offset_db (t : table) (offset : Z) : option chunk := search_lookup (t_chunks t) offset.
 
 (* ---------- the chunk cache (abstract: any finite or infinite map) ---------- *)
 (* genID(id, chunkOffset, chunkSize) *)
@@ -197,6 +227,7 @@ End ReadLoop.
 
 (* ---------- a layer: files with their content, chunk table and gzip-member grouping ---------- *)
 Record file := mkFile {
+  f_db : bool;                     (* served by the db metadata store (else: the memory store) *)
   f_data : bytes;
   f_table : table;
   (* for each chunk (by ChunkOffset) the keys of the other data entries stored in the same compression member:
@@ -205,7 +236,9 @@ Record file := mkFile {
 }.
 Definition layer := list file.
 
-Definition file_at (L : layer) (i : nat) : file := nth i L (mkFile [] (mkTable (mkChunk 0 0) []) []).
+Definition file_at (L : layer) (i : nat) : file := nth i L (mkFile false [] (mkTable (mkChunk 0 0) []) []).
+Definition lookup_of (f : file) : Z -> option chunk :=
+  if f_db f then chunk_for_offset_db (f_table f) else chunk_for_offset (f_table f).
 
 (* the bytes a cache entry must hold to be honest *)
 Definition true_bytes (L : layer) (k : key) : bytes :=
@@ -231,26 +264,26 @@ Definition under_layer (L : layer) (i : nat) (c : cache) (ch : chunk) : option (
 
 (* one read with arbitrary interference between its iterations *)
 Definition read_file_env (L : layer) (i : nat) (env : nat -> bool -> cache -> cache) (c : cache) (off len : Z) : rres * cache * list ev :=
-  read_at i (chunk_for_offset (f_table (file_at L i))) (under_layer L i) env c off len.
+  read_at i (lookup_of (file_at L i)) (under_layer L i) env c off len.
 
 (* one read running alone *)
 Definition read_file (L : layer) (i : nat) (c : cache) (off len : Z) : rres * cache * list ev :=
   read_file_env L i (fun _ _ c => c) c off len.
 
 (* every (id, chunk) key of the layer, as the prefetch walk (VerifiableReader.Cache: nr += chunkSize) enumerates them *)
-Fixpoint walk_chunks (fuel : nat) (t : table) (i : nat) (nr size : Z) : list key :=
+Fixpoint walk_chunks (fuel : nat) (lookup : Z -> option chunk) (i : nat) (nr size : Z) : list key :=
   match fuel with
   | O => []
   | S fu =>
       if nr <? size then
-        match chunk_for_offset t nr with
+        match lookup nr with
         | None => []
-        | Some ch => (i, c_off ch, c_size ch) :: walk_chunks fu t i (nr + c_size ch) size
+        | Some ch => (i, c_off ch, c_size ch) :: walk_chunks fu lookup i (nr + c_size ch) size
         end
       else []
   end.
 Definition file_keys (L : layer) (i : nat) : list key :=
-  let f := file_at L i in walk_chunks (S (Z.to_nat (zlen (f_data f)))) (f_table f) i 0 (zlen (f_data f)).
+  let f := file_at L i in walk_chunks (S (Z.to_nat (zlen (f_data f)))) (lookup_of f) i 0 (zlen (f_data f)).
 Definition layer_keys (L : layer) : list key := flat_map (file_keys L) (seq 0 (length L)).
 
 (* ---------- histories ---------- *)
